@@ -389,8 +389,9 @@ class Gen:
                meta={"kind": "redeliver-stale-ack", "orig": st0, "case": False})
         return True
 
-    def act_redeliver_held(self):
-        """an impatient relay repeats a query the server is still holding (q or q_sendrealsoon), right now"""
+    def act_redeliver_held(self, faithful_soon=False):
+        """an impatient relay repeats a query the server is still holding (q or q_sendrealsoon), right now; with `faithful_soon` the repeat
+        is of the query in the send-real-soon slot, with the same name, type and source and a new id (nothing left to chance)"""
         if not self.h.steps:
             return
         slots = self.h.steps[-1].slots
@@ -407,6 +408,13 @@ class Gen:
             return
         # a query that was just moved to the send-real-soon slot is the interesting one: its answer is due within the same 20 ms
         soon = [c for c in cands if c[1].meta["id"] in heldqs]
+        if faithful_soon:
+            if not soon:
+                return
+            cl, st0 = soon[-1]
+            m = st0.meta
+            self.q(cl, m["name"], qtype=m["qtype"], id_=self.dnsid(zero_ok=False), src=m["src"], meta={"kind": "redeliver-held", "orig": st0})
+            return
         cl, st0 = self.rng.choice(soon) if soon and self.rng.random() < 0.7 else self.rng.choice(cands)
         m = st0.meta
         r = self.rng.random()
@@ -598,7 +606,7 @@ class Gen:
         st = self.q(cl, cl.c.option(b"l"), meta={"kind": "O"})
         cl.lazy = True
         self.act_ping(cl)
-        for _ in range(self.rng.randrange(2, 6)):
+        for npk in range(self.rng.randrange(2, 6)):
             # one packet in 2..5 fragments (short host names make small fragments)
             cl.c.up_seq = (cl.c.up_seq + 1) & 7
             cl.c.up_frag = 0
@@ -613,11 +621,14 @@ class Gen:
                     cl.sent.append(st)
                 off += n
                 cl.c.up_frag = (cl.c.up_frag + 1) & 15
-                if self.rng.random() < 0.6:
+                if off >= len(img) and npk % 2 == 0:
+                    # the last fragment has just pushed its predecessor into the send-real-soon slot: the relay repeats that one within the 20 ms
+                    self.act_redeliver_held(faithful_soon=True)
+                elif self.rng.random() < 0.6:
                     self.act_redeliver_held()
                 if self.rng.random() < 0.3:
                     self.h.send("tick", {"kind": "tick"})
-            if self.rng.random() < 0.5:
+            if npk % 2 == 0 or self.rng.random() < 0.5:
                 self.act_ping(cl)
 
     def scenario_bytes_matrix(self):
